@@ -132,7 +132,7 @@ impl RenetClient {
 
     /// what RenetClient::process_packet does with a packet that decoded to `pv` on a connection that was alive (`pre`)
     pub open spec fn glue_effect(pre: RenetClient, post: RenetClient, pv: PacketV) -> bool {
-        // the packet's sequence number is recorded for acknowledgement (an Ack packet may in addition trim the list: arm not under contract)
+        // the packet's sequence number is recorded for acknowledgement (an Ack packet may in addition trim the list)
         &&& (!(pv is Ack) ==> ack_added(pre.pending_acks@, post.pending_acks@, pv_sequence(pv)))
         &&& match pv {
             PacketV::SmallReliable { sequence, channel_id, messages } => Self::send_side_same(pre, post) && (
@@ -173,8 +173,7 @@ impl RenetClient {
                             pre.receive_unreliable_channels@[channel_id].auth(sub) && sub.contains_key(message_id)
                             && sv_authentic(slice_index, num_slices, payload, sub[message_id]) ==> !post.disconnected())
                 }),
-            // acknowledgement packets: rule D8, nothing stated
-            PacketV::Ack { sequence, ranges } => true,
+            PacketV::Ack { sequence, ranges } => Self::ack_effect(pre, post, sequence, ranges),
         }
     }
 }
